@@ -35,7 +35,8 @@ def judge(out, behs, lines, found):
     out.evaluations = len(ops)
     out.distinct_nontrivial = len({json.dumps(b["steps"], sort_keys=True) for b in behs if any(s["op"] in ("clone", "enter", "entered", "scope_begin", "instrument", "current") for s in b["steps"])})
     out.rule = ("a case is one program over the Span API (TLC -simulate of MCSpanProtocolSim: 40-step programs over 5 handle / 4 guard / "
-                "2 future slots and 160-step programs over 7/5/3 slots, 3 threads, 3 collectors of which a random subset rejects target 'x'), "
+                "2 future slots and 160-step programs over 7/5/3 slots, 3 threads, 3 collectors of which a random subset rejects target 'x', each "
+                "installed plainly, boxed or arc'd; a third of the handle drops happen in a frame unwinding from a panic), "
                 "run in its own OS process against real tracing::Span / Instrumented (tracing and tracing-futures); distinct = distinct "
                 "programs that clone, enter, instrument or capture Span::current at least once")
     out.samples = [behs[0]["steps"][:10], [x for x in ops if x["calls"]][:4]]
@@ -62,6 +63,15 @@ def run(out, tier):
     s = vlib.seed()
     behs = sim("MCSpanProtocolSim", 320 if quick else 3200, 43, s, out, "MCSpanProtocolSim -simulate (40 steps)")
     behs += sim("MCSpanProtocolSimLong", 48 if quick else 480, 163, s + 1, out, "MCSpanProtocolSim -simulate (160 steps)")
+    # binding-only choices the specification is indifferent to: how each collector is installed (plain / Box / Arc) and
+    # whether a handle is dropped normally or by a frame that is unwinding from a panic
+    import random
+    rng = random.Random(s * 3 + 3)
+    for b in behs:
+        b["wrap"] = [rng.choice(["plain", "plain", "box", "arc"]) for _ in b["acc"]]
+        for st in b["steps"]:
+            if st["op"] == "drop" and rng.random() < 0.3:
+                st["unwind"] = True
     lines, found = execute(behs, "c03")
     judge(out, behs, lines, found)
 
